@@ -41,6 +41,10 @@ fn main() {
     }
     if std::env::var("UMYA_SHOW_PANIC").is_err() { std::panic::set_hook(Box::new(|_| {})); }
     let prop = args[1].to_lowercase();
+    if prop == "c11cyclic" {
+        // child process of C11's experiment with cyclic relationship graphs (see c11::cyclic_experiment)
+        std::process::exit(c11::cyclic_child(&args[2], &args[4]));
+    }
     let tier = if args[2] == "thorough" { Tier::Thorough } else { Tier::Quick };
     let seed: u64 = args[3].parse().unwrap_or(0);
     let dir = PathBuf::from(&args[4]);
